@@ -7,8 +7,10 @@ From SA Require Import View.View_Phrase2 Solr.Edismax_Indexed Solr.Edismax_Index
 Import ListNotations.
 
 (* view_commutes_all is property C06 for a mask key: scoring the view of matching rows = gathering the
-   whole-frame scores at those rows (document frequencies, avg length, corpus size inherited). PARTIAL:
-   it is an explicit premise here; C06's commutation theorem is proved for tf / positions / lengths / df. *)
+   whole-frame scores at those rows (document frequencies, avg length, corpus size inherited).  It is an
+   explicit premise of this generic form and is PROVED for frames of freshly indexed columns further down
+   (C10_indexed_phrase_boosts, C10_indexed_phrase_boosts_any_query).  wf_query's side conditions (n rows per field,
+   non-negative idf table, tie / boosts >= 0, mm in the range of C11, >= 1 query term per field) remain hypotheses. *)
 Theorem C10_phrase_boosts_partial : forall idf n q, wf_query idf n q ->
   (is_term_centric (eq_fields q) = true -> qf_calls_ok idf q) -> select_ok n q ->
   view_commutes_all idf n q ->
